@@ -545,6 +545,10 @@ impl C05 {
         if let Ok(p) = std::env::var("VCHECK_RELEASE") {
             children.push(("release".to_string(), p));
         }
+        // the same with toml_edit's `perf` feature: a performance switch must not touch the limit
+        if let Ok(p) = std::env::var("VCHECK_PERF") {
+            children.push(("release-perf".to_string(), p));
+        }
         C05 { children }
     }
 
